@@ -1156,6 +1156,16 @@ def std_summary(tb, path, upath, fr, args):
             if lo == C(0):
                 return ("asptr", a0[2][0])
             return ("ptrop", "add", ("asptr", a0[2][0]), lo, es if es is not None else ("sizeof", g[0] if g else "?"))
+        a1 = a0[1] if a0[0] == "unwrap" and isinstance(a0[1], tuple) and a0[1] else None
+        if a1 is not None and a1[0] == "call" and isinstance(a1[1], str) and a1[1].startswith("core::slice::<impl [") and "]>::get::<core::ops::range::Range" in a1[1] and \
+                len(a1[2]) == 2 and a1[2][1][0] == "aggr" and a1[2][1][1][0] == "adt" and \
+                a1[2][1][1][1] in ("core::ops::range::RangeFrom", "core::ops::range::Range") and a1[2][1][2]:
+            # `s.get(lo..).unwrap()` / `.expect(..)`: the sub-slice of that range (std contract), starting `lo` elements into s
+            es = F.size_of(g[0]) if g else None
+            lo = a1[2][1][2][0]
+            if lo == C(0):
+                return ("asptr", a1[2][0])
+            return ("ptrop", "add", ("asptr", a1[2][0]), lo, es if es is not None else ("sizeof", g[0] if g else "?"))
         return ("asptr", a0)
     if path in ("core::ptr::eq", "core::ptr::addr_eq") and len(args) == 2:
         # address comparison (for thin pointers: pointer equality); a fat pointer built over p has p's address
